@@ -524,11 +524,11 @@ class _BBRepr(Repr):
     """
     def __init__(self):
         super().__init__()
-        # turn up all the length limits very high
+        # turn off all the length limits: a repr with an elided middle does not round-trip
         for name in self.__dict__:
             if not isinstance(getattr(self, name), int):
                 continue
-            setattr(self, name, 1024)
+            setattr(self, name, sys.maxsize)
         self._active = set()
 
     def repr1(self, x, level):
